@@ -28,6 +28,7 @@ def run(s):
     # a running-order element that holds nothing but stories (moving every story empties it for a moment)
     K.story_grid(s, 3, layouts=('bare',), pretties=(False,), kmax=3, full=False)
     K.story_grid(s, 3, layouts=('before',), pretties=(True,), kmax=2, full=False, names=K.LONG_NAMES)
+    K.story_grid(s, 4, layouts=('before',), pretties=(False,), kmax=2, full=False, names=K.HOSTILE_NAMES_C)
     if s.tier == 'quick':
         K.story_grid(s, 4, layouts=('none', 'between', 'everywhere'), kmax=3, full=False)
         K.story_grid(s, 4, layouts=('before',), pretties=(False,), kmax=2, full=False, names=K.HOSTILE_NAMES)
